@@ -360,6 +360,28 @@ class CFG:
 
 
 # -- guards under assumptions -------------------------------------------------
+def dominating_conditions(g, node, doms=None, edge_ok=None):
+  """[(test expression, truth value, test node)] for the tests dominating `node` exactly one of whose outcomes can
+  lead to `node` (without passing the test again): the conditions that hold whenever `node` executes.  Covers both the
+  nested-if form and the guard form (`if not c: continue`)."""
+  edge_ok = edge_ok or no_exc
+  doms = doms or g.dominators(edge_ok)
+  out = []
+  for t in doms.get(node, ()):
+    if t.kind != 'test' or t is node:
+      continue
+    reach = {}
+    for m, lab in g.succ[t]:
+      if lab in ('true', 'false'):
+        r = g.reachable(m, lambda a, b, l, t=t: edge_ok(a, b, l) and b is not t and a is not t)
+        reach[lab] = (node in r) or (m is node)
+    live = [k for k, v in reach.items() if v]
+    if len(live) == 1:
+      out.append((t.expr, live[0] == 'true', t))
+  out.sort(key=lambda x: x[2].id)
+  return out
+
+
 def decide_test(expr, facts, resolve=None):
   """Three-valued evaluation of a test expression under `facts`.
 
@@ -368,14 +390,17 @@ def decide_test(expr, facts, resolve=None):
   definition) used to look through local aliases.
   Returns True, False or None (unknown).
   """
-  def look(e):
+  def look(e, _depth=0):
     k = norm(e)
     if k in facts:
       return facts[k]
-    if resolve is not None and isinstance(e, ast.Name):
-      r = resolve(e)
-      if r is not None and r is not e:
-        return look(r)
+    if resolve is not None and _depth < 3 and isinstance(e, (ast.Name, ast.Attribute, ast.Subscript)):
+      try:
+        r = resolve(e)
+      except Exception:
+        r = None
+      if r is not None and r is not e and norm(r) != k:
+        return look(r, _depth + 1)
     return None
 
   def ev(e):
